@@ -74,52 +74,145 @@ def bind(prog, run):
             run.ob("R-bind", m.qual, f"{callee}.{p} <- {src_want}", got == src_want, f"`{got}`", witness=str(got), file=f, node=cs[0])
 
 
+DRAW = ("plot", "scatter", "errorbar")
+
+
+def draw_calls(fi):
+    """[(call, x expr, y expr)] of ax.plot / ax.scatter / ax.errorbar with two positional (or x=, y=) coordinates"""
+    out = []
+    for c in ast.walk(fi.node):
+        if isinstance(c, ast.Call) and isinstance(c.func, ast.Attribute) and c.func.attr in DRAW:
+            x = c.args[0] if len(c.args) >= 1 else astq.kwarg(c, "x")
+            y = c.args[1] if len(c.args) >= 2 else astq.kwarg(c, "y")
+            if x is not None and y is not None:
+                out.append((c, x, y))
+    return out
+
+
+def flat_form(prog, fi, e):
+    """(order 'F'/'C', flattened table expression) if e flattens a table, else None"""
+    if isinstance(e, ast.Call) and isinstance(e.func, ast.Attribute) and e.func.attr in ("flatten", "ravel"):
+        o = astq.kwarg(e, "order", 0)
+        if o is not None and not (isinstance(o, ast.Constant) and isinstance(o.value, str)):
+            return None
+        order = o.value.upper() if o is not None else "C"
+        base = e.func.value
+        if order in ("C", "F") and isinstance(base, ast.Attribute) and base.attr == "T":
+            return ("F" if order == "C" else "C"), base.value       # row-major walk of the transpose = column-major walk
+        return (order, base) if order in ("C", "F") else None
+    if isinstance(e, ast.Call) and astq.callee_name(prog, fi, e) == "numpy.ravel" and e.args:
+        o = astq.kwarg(e, "order", 1)
+        if o is not None and not (isinstance(o, ast.Constant) and isinstance(o.value, str)):
+            return None
+        return ((o.value.upper() if o is not None else "C"), e.args[0])
+    return None
+
+
+def order_axis_form(prog, fi, e):
+    """decompose the model-order axis: {'op': '//' | '%', 'div': 'rows' | 'cols' | None, 'scaled': bool} or None"""
+    scaled = False
+    cur = e
+    # peel  (...) * step
+    while isinstance(cur, ast.BinOp) and isinstance(cur.op, ast.Mult):
+        if isinstance(cur.right, ast.Name) and cur.right.id == "step":
+            scaled, cur = True, cur.left
+        elif isinstance(cur.left, ast.Name) and cur.left.id == "step":
+            scaled, cur = True, cur.right
+        else:
+            break
+    if isinstance(cur, ast.Call) and astq.callee_name(prog, fi, cur) in ("numpy.array", "numpy.asarray") and cur.args:
+        cur = cur.args[0]
+    idx = None
+    if isinstance(cur, ast.ListComp) and len(cur.generators) == 1 and isinstance(cur.generators[0].target, ast.Name):
+        idx = cur.generators[0].target.id
+        cur = cur.elt
+        while isinstance(cur, ast.BinOp) and isinstance(cur.op, ast.Mult):
+            if isinstance(cur.right, ast.Name) and cur.right.id == "step":
+                scaled, cur = True, cur.left
+            elif isinstance(cur.left, ast.Name) and cur.left.id == "step":
+                scaled, cur = True, cur.right
+            else:
+                break
+    if not (isinstance(cur, ast.BinOp) and isinstance(cur.op, (ast.FloorDiv, ast.Mod))):
+        return None
+    left = cur.left
+    is_idx = (idx is not None and isinstance(left, ast.Name) and left.id == idx) or \
+        (isinstance(left, ast.Call) and astq.callee_name(prog, fi, left) in ("numpy.arange", "range"))
+    if not is_idx:
+        return None
+    div = cur.right
+    dt = astq.src(div)
+    kind = "rows" if (isinstance(div, ast.Call) and astq.callee_name(prog, fi, div) == "len") or dt.endswith(".shape[0]") else ("cols" if dt.endswith(".shape[1]") else None)
+    return {"op": "//" if isinstance(cur.op, ast.FloorDiv) else "%", "div": kind, "scaled": scaled, "divsrc": dt}
+
+
 def flatten(prog, run, fi):
     f = rel(prog.mods[fi.mod].path)
-    fl = [c for c in ast.walk(fi.node) if isinstance(c, ast.Call) and isinstance(c.func, ast.Attribute) and c.func.attr in ("flatten", "ravel")]
-    orders = []
-    for c in fl:
-        o = astq.kwarg(c, "order", 0)
-        orders.append(o.value.upper() if isinstance(o, ast.Constant) and isinstance(o.value, str) else "C")
-    ok = bool(fl) and len(set(orders)) == 1
-    run.ob("R-flatten", fi.qual, "all tables flattened in the same order", ok, f"{len(fl)} flatten calls, orders {sorted(set(orders))}", witness=str(sorted(set(orders))), file=f, node=fi.node)
-    # order axis: [i // len(T) for i in range(len(x))] * step
-    comps = [n for n in ast.walk(fi.node) if isinstance(n, ast.ListComp) and isinstance(n.elt, ast.BinOp) and isinstance(n.elt.op, (ast.FloorDiv, ast.Mod))]
-    if fi.node.name == "stab_plot":
-        if not comps:
-            run.ob("R-flatten", fi.qual, "order axis formula", None, "model-order axis construction `[i // rows ...]` not found", file=f)
-        for lc in comps:
-            op = "//" if isinstance(lc.elt.op, ast.FloorDiv) else "%"
-            div = lc.elt.right
-            rows = isinstance(div, ast.Call) and astq.callee_name(prog, fi, div) == "len"
-            cols = ".shape[1]" in astq.src(div)
-            want = orders and orders[0] == "F"
-            okf = (want and op == "//" and (rows or ".shape[0]" in astq.src(div))) or (not want and op == "%" and cols) or (not want and op == "//" and cols and False)
-            run.ob("R-flatten", fi.qual, "order axis consistent with the flatten order", bool(okf),
-                   f"`{astq.src(lc.elt)}` with flatten order {orders[0] if orders else '?'}", witness=f"{astq.src(lc.elt)}|{orders[0] if orders else '?'}", file=f, node=lc)
-            # the divisor table must have the table's shape (derived from the label/frequency tables)
-            # and the axis is multiplied by step
-        mults = [n for n in ast.walk(fi.node) if isinstance(n, ast.BinOp) and isinstance(n.op, ast.Mult) and any(x is c for c in comps for x in ast.walk(n.left))]
-        oks = bool(mults) and all(isinstance(n.right, ast.Name) and n.right.id == "step" for n in mults) and len(mults) == len(comps)
-        run.ob("R-flatten", fi.qual, "order axis scaled by step", oks, f"{len(mults)} of {len(comps)} axes multiplied by `step`", witness=f"{len(mults)}/{len(comps)}", file=f, node=fi.node)
+    draws = draw_calls(fi)
+    if not draws:
+        run.ob("R-flatten", fi.qual, "drawing calls", None, "no ax.plot / ax.scatter / ax.errorbar call with two coordinates found", file=f)
+        return
+    orders = {}
+    seen = set()
+    axes = []
+    for c, x, y in draws:
+        xs = [("x", astq.expr_at(fi, c, x)), ("y", astq.expr_at(fi, c, y))]
+        xe = astq.kwarg(c, "xerr")
+        if xe is not None:
+            xs.append(("xerr", astq.expr_at(fi, c, xe)))
+        for role, ex in xs:
+            ff = flat_form(prog, fi, ex)
+            if ff is not None:
+                orders.setdefault(ff[0], []).append(astq.src(ff[1], 40))
+            elif role == "y" and fi.node.name == "stab_plot":
+                key = astq.dump(ex)
+                if key not in seen:
+                    seen.add(key)
+                    axes.append((c, ex))
+    n_fl = sum(len(v) for v in orders.values())
+    ok = (len(orders) == 1) if n_fl else None
+    run.ob("R-flatten", fi.qual, "all drawn tables flattened in the same order", ok, f"{n_fl} flattened coordinates, orders {sorted(orders)}", witness=str(sorted(orders)), file=f, node=fi.node)
+    if fi.node.name != "stab_plot":
+        return
+    want = sorted(orders)[0] if len(orders) == 1 else None
+    forms = [(c, ex, order_axis_form(prog, fi, ex)) for c, ex in axes]
+    if not forms:
+        run.ob("R-flatten", fi.qual, "order axis formula", None, "model-order axis of the drawn markers not found", file=f)
+    for c, ex, fo in forms:
+        if fo is None or want is None:
+            run.ob("R-flatten", fi.qual, "order axis consistent with the flatten order", None, f"order axis `{astq.src(ex, 70)}` is not of the form index // rows (or index % columns)", file=f, node=c,
+                   config=astq.src(ex, 50))
+            continue
+        okf = None
+        if fo["div"] is not None:
+            okf = (want == "F" and fo["op"] == "//" and fo["div"] == "rows") or (want == "C" and fo["op"] == "%" and fo["div"] == "cols")
+        run.ob("R-flatten", fi.qual, "order axis consistent with the flatten order", okf,
+               f"`index {fo['op']} {fo['divsrc']}` with flatten order {want}", witness=f"{fo['op']} {fo['div']}|{want}", file=f, node=c, config=astq.src(ex, 50))
+        run.ob("R-flatten", fi.qual, "order axis scaled by step", fo["scaled"], f"`{astq.src(ex, 70)}`" + ("" if fo["scaled"] else " is not multiplied by `step`"),
+               witness=astq.src(ex, 60), file=f, node=c, config=astq.src(ex, 50))
 
 
 def markers(prog, run, fi):
     f = rel(prog.mods[fi.mod].path)
     pos, _, _, _ = astq.params_of(fi.node)
-    wh = [c for c in ast.walk(fi.node) if isinstance(c, ast.Call) and astq.callee_name(prog, fi, c) == "numpy.where" and len(c.args) == 3
-          and isinstance(c.args[0], ast.Compare) and isinstance(c.args[0].left, ast.Name) and c.args[0].left.id.lower().startswith("lab")]
+    lab = [p_ for p_ in pos if p_.lower().startswith("lab")]
+    wh = []
+    for c in ast.walk(fi.node):
+        if isinstance(c, ast.Call) and astq.callee_name(prog, fi, c) == "numpy.where" and len(c.args) == 3:
+            cond = astq.expr_at(fi, c, c.args[0])
+            if isinstance(cond, ast.Compare) and isinstance(cond.left, ast.Name) and cond.left.id in lab:
+                wh.append((c, cond))
     if not wh:
         run.ob("R-markers", fi.qual, "label selections", None, "no np.where(Lab == k, X, nan) selection found", file=f)
         return
     sel = {}
-    for c in wh:
-        cmp_ = c.args[0]
+    for c, cmp_ in wh:
         k = cmp_.comparators[0].value if isinstance(cmp_.comparators[0], ast.Constant) else None
-        isnan = isinstance(c.args[2], ast.Attribute) and c.args[2].attr.lower() == "nan"
-        tbl = c.args[1].id if isinstance(c.args[1], ast.Name) else astq.src(c.args[1])
+        a1, a2 = astq.expr_at(fi, c, c.args[1]), astq.expr_at(fi, c, c.args[2])
+        isnan = isinstance(a2, ast.Attribute) and a2.attr.lower() == "nan"
+        tbl = a1.id if isinstance(a1, ast.Name) else astq.src(a1)
         okform = isinstance(cmp_.ops[0], ast.Eq) and k in (0, 1) and isnan and tbl in pos
-        run.ob("R-markers", fi.qual, f"selection of {tbl} by label {k}", okform, f"`{astq.src(c)}`", witness=astq.src(c, 60), file=f, node=c)
+        run.ob("R-markers", fi.qual, f"selection of {tbl} by label {k}", okform, f"`np.where({astq.src(cmp_)}, {astq.src(a1, 30)}, {astq.src(a2, 20)})`", witness=f"{astq.src(cmp_)}|{tbl}|{astq.src(a2, 20)}", file=f, node=c)
         sel.setdefault(tbl, set()).add(k)
     tables = [t for t in sel if t in pos]
     full = all(sel[t] == {0, 1} for t in tables)
@@ -136,12 +229,13 @@ def cmif(prog, run, fi):
         return
     pm = astq.parent_map(fi.node)
     for c in plots:
-        x, y = c.args[0], c.args[1]
+        x, y = astq.expr_at(fi, c, c.args[0]), astq.expr_at(fi, c, c.args[1])
         okx = isinstance(x, ast.Name) and x.id == fr
-        ok = False
+        ok = None
         why = astq.src(y, 110)
-        if isinstance(y, ast.BinOp) and isinstance(y.op, ast.Mult) and isinstance(y.left, ast.Constant) and y.left.value == 10 and isinstance(y.right, ast.Call) \
-                and astq.callee_name(prog, fi, y.right) == "numpy.log10" and isinstance(y.right.args[0], ast.BinOp) and isinstance(y.right.args[0].op, ast.Div):
+        if isinstance(y, ast.BinOp) and isinstance(y.op, ast.Mult) and isinstance(y.left, ast.Constant) and isinstance(y.right, ast.Call) \
+                and astq.callee_name(prog, fi, y.right) in ("numpy.log10", "numpy.log", "numpy.log2") and isinstance(y.right.args[0], ast.BinOp) and isinstance(y.right.args[0].op, ast.Div):
+            scale_ok = y.left.value == 10 and astq.callee_name(prog, fi, y.right) == "numpy.log10"
             num, den = y.right.args[0].left, y.right.args[0].right
             # numerator S_val[k, k, :]
             numok = isinstance(num, ast.Subscript) and isinstance(num.value, ast.Name) and num.value.id == sv and len(astq.index_elts(num)) == 3 \
@@ -159,14 +253,21 @@ def cmif(prog, run, fi):
             def first_sv(e):
                 return isinstance(e, ast.Subscript) and isinstance(e.value, ast.Name) and e.value.id == sv and len(astq.index_elts(e)) == 3 \
                     and is_zero(astq.index_elts(e)[0]) and is_zero(astq.index_elts(e)[1]) and astq.is_full_slice(astq.index_elts(e)[2])
-            denok = False
-            if isinstance(den, ast.Subscript) and first_sv(den.value):
+
+            def any_sv(e):
+                return isinstance(e, ast.Subscript) and isinstance(e.value, ast.Name) and e.value.id == sv
+            denok = None
+            if isinstance(den, ast.Subscript) and any_sv(den.value):
                 a = astq.argreduce(prog, fi, den.slice, astq.ARGMAX)
-                denok = a is not None and first_sv(a)
-            elif isinstance(den, ast.Call) and astq.callee_name(prog, fi, den) in ("numpy.max", "numpy.amax", "numpy.nanmax", "max") and den.args:
+                denok = first_sv(den.value) and a is not None and first_sv(a)
+            elif isinstance(den, ast.Subscript) and isinstance(den.value, ast.Name) and den.value.id == sv and len(astq.index_elts(den)) == 3:
+                el = astq.index_elts(den)
+                a = astq.argreduce(prog, fi, el[2], astq.ARGMAX)
+                denok = is_zero(el[0]) and is_zero(el[1]) and a is not None and first_sv(a)
+            elif isinstance(den, ast.Call) and astq.callee_name(prog, fi, den) in ("numpy.max", "numpy.amax", "numpy.nanmax", "max") and den.args and any_sv(den.args[0]):
                 denok = first_sv(den.args[0])
-            ok = numok and denok
-        run.ob("R-cmif", fi.qual, "curve = 10 log10(sigma_k / max sigma_1) over the frequency grid", ok and okx, f"x=`{astq.src(x)}`, y=`{why}`", witness=why[:90], file=f, node=c,
+            ok = None if denok is None else (numok and denok and scale_ok)
+        run.ob("R-cmif", fi.qual, "curve = 10 log10(sigma_k / max sigma_1) over the frequency grid", (ok and okx) if ok is not None else None, f"x=`{astq.src(x)}`, y=`{why}`", witness=why[:90], file=f, node=c,
                config=f"plot#{plots.index(c)}")
 
 
